@@ -320,6 +320,7 @@ def run(ctx):
     import sitecorr
     sitecorr.compare(ctx, res, ctx.n(5, 60), "C05")
     res.degraded = list(pyg.degraded) + [d for d in res.degraded if d not in pyg.degraded]
+    mailbox_growth(ctx, res)
     return res
 
 
@@ -339,3 +340,42 @@ def replay(data):
     finally:
         tree.close()
     return 0
+
+
+def mailbox_growth(ctx, res):
+    """One server process: a message of a mailbox is read, the mailbox then grows (a delivery within the same second: the
+    file's time stamp in whole seconds stays), the folder is listed again -- every message it now lists is served."""
+    msg = lambda k: (b"From a@b Sat Jan  5 09:43:0%d 2002\nSubject: message %d\n\nbody of message %d\n\n" % (k, k, k))  # noqa
+    tree = pyg.Tree()
+    try:
+        tree.write("inbox", msg(1) + msg(2))
+        tree.write("maildir2/cur/1:2,S", b"Subject: one\n\nbody\n")
+        tree.mkdir("maildir2/new")
+        tree.mkdir("maildir2/tmp")
+        cfg = pyg.make_config(tree.root, **{"handlers.dir.DirHandler|cachetime": "0"})
+        pyg.fresh_process_state()
+        st = os.stat(tree.path("inbox"))
+
+        def links(sel):
+            out = pyg.request(reqs.build("gopher", sel), cfg, reset=False).out or b""
+            return [e[2] for e in parse_gopher(out) if e[0] != "i" and "MESSAGE" in e[2]]
+        first = links("/inbox")
+        for sel in first:
+            pyg.request(reqs.build("gopher", sel), cfg, reset=False)
+        with open(tree.path("inbox"), "ab") as f:
+            f.write(msg(3))
+        os.utime(tree.path("inbox"), ns=(st.st_atime_ns, st.st_mtime_ns))
+        tree.write("maildir2/new/2", b"Subject: two\n\nbody two\n")
+        for folder in ("/inbox", "/maildir2"):
+            for sel in links(folder):
+                for p_ in ("gopher", "http"):
+                    r = pyg.request(reqs.build(p_, sel), cfg, reset=False)
+                    res.evaluations += 1
+                    res.nontrivial.add(("mailbox-growth", sel, p_))
+                    if reqs.classify(p_, r.out)[0] != "ok":
+                        res.violation("C05:dead-link:mailbox-after-growth", "a message the folder lists after the mailbox grew is not served",
+                                      {"folder": folder, "link": sel, "protocol": p_, "messages_listed_before": len(first)}, observed=(r.out or b"")[:120],
+                                      required="the message", replay={"mailbox_growth": True, "link": sel})
+    finally:
+        tree.close()
+        pyg.fresh_process_state()
